@@ -190,6 +190,17 @@ func compareView(sys *tarfs.FS, t *otree, rnd func(int) int) []failure {
 		if fi.Name() != path.Base(w.path) {
 			add("stat", "Stat(%q).Name() = %q", w.path, fi.Name())
 		}
+		// Mode and time are those of the member that made the node (for a file:
+		// of its last occurrence). A file written through a link and the
+		// directories nobody wrote a member for are left out.
+		if !w.node.implied && w.path != "." && !t.flags.throughLink && !t.flags.aliasDup {
+			if mb := modeBits(fi.Mode()); int64(mb) != w.node.mode {
+				add("meta", "Stat(%q) has mode bits %o, the member has %o", w.path, mb, w.node.mode)
+			}
+			if mt := fi.ModTime(); mt.Unix() != w.node.mtimeS || mt.Nanosecond() != w.node.mtimeN {
+				add("meta", "Stat(%q).ModTime() = %d.%09d, the member has %d.%09d", w.path, mt.Unix(), mt.Nanosecond(), w.node.mtimeS, w.node.mtimeN)
+			}
+		}
 		switch w.node.kind {
 		case 'f', 'h':
 			data, _ := t.content(w.node)
